@@ -2,6 +2,9 @@ package checks
 
 import (
 	"fmt"
+	"hash/adler32"
+	"hash/crc32"
+	"hash/fnv"
 	"math/rand"
 	"os"
 	"path/filepath"
@@ -535,6 +538,7 @@ func runC06(c *core.Ctx) {
 	c06SummaryLastSecond(c, summaryZones)
 	c06NaturalLanguage(c)
 	c06SubSecond(c, [][]string{{"print"}, {"csv", "log"}, {"reg"}, {"report", "quantity"}})
+	c06HashTwins(c)
 	// the period of a request is the one this request names: requests served one after the other by one
 	// application value (the job server), each compared with a freshly built application
 	if pool := newPool(c, c.Procs); pool != nil {
@@ -839,4 +843,65 @@ func ds(d *gen.Date) string {
 		return "-"
 	}
 	return d.ISO()
+}
+
+// c06HashTwins: two different headings of one log whose texts collide under a common 32-bit hash (FNV-1a, FNV-1,
+// CRC-32, Adler-32, found by searching all dates of the years 1..9999), one on each side of a period bound: they are
+// different days all the same.
+func c06HashTwins(c *core.Ctx) {
+	dir := filepath.Join(c.Work, "hash-twins")
+	type hf struct {
+		name string
+		sum  func(string) uint32
+	}
+	hs := []hf{
+		{"FNV-1a", func(s string) uint32 { h := fnv.New32a(); h.Write([]byte(s)); return h.Sum32() }},
+		{"FNV-1", func(s string) uint32 { h := fnv.New32(); h.Write([]byte(s)); return h.Sum32() }},
+		{"CRC-32", func(s string) uint32 { return crc32.ChecksumIEEE([]byte(s)) }},
+		{"Adler-32", func(s string) uint32 { return adler32.Checksum([]byte(s)) }},
+	}
+	var dates []string
+	for d := time.Date(1, 1, 1, 0, 0, 0, 0, time.UTC); d.Year() <= 9999; d = d.AddDate(0, 0, 1) {
+		dates = append(dates, d.Format("2006/01/02"))
+	}
+	for _, h := range hs {
+		seen := make(map[uint32]int32, len(dates))
+		found := 0
+		for i, ds := range dates {
+			k := h.sum(ds)
+			j, ok := seen[k]
+			if !ok {
+				seen[k] = int32(i)
+				continue
+			}
+			if found++; found > 3 {
+				break
+			}
+			a, b := dates[j], ds // a is the earlier date
+			mid := dates[(int(j)+i)/2]
+			block := func(d string, n int) string { return fmt.Sprintf("%s:\n  food%d: %d\n", d, n, n) }
+			// the earlier date stands later in the file, so that whatever is remembered for the first is applied to the second
+			full := block(b, 1) + block(mid, 2) + block(a, 3)
+			for _, pc := range []struct {
+				period []string
+				sel    string
+			}{{[]string{"-e", mid}, block(mid, 2) + block(a, 3)}, {[]string{"-b", mid}, block(b, 1) + block(mid, 2)}, {[]string{"-b", a, "-e", a}, block(a, 3)}} {
+				files := map[string]string{"log.yaml": full, "logr.yaml": pc.sel}
+				run.WriteFiles(dir, files)
+				for _, cmd := range [][]string{{"print"}, {"reg"}, {"csv", "log"}} {
+					ref := run.Exec(c.HR, append([]string{"--no-color", "--no-database", "-l", "logr.yaml"}, cmd...), run.ExecOpts{Dir: dir})
+					args := append(append([]string{"--no-color", "--no-database", "-l", "log.yaml"}, pc.period...), cmd...)
+					res := run.Exec(c.HR, args, run.ExecOpts{Dir: dir})
+					c.Eval(2)
+					c.Count("runs_on_headings_that_collide_under_a_32_bit_hash", 1)
+					c.Nontrivial("hash-twins", h.name, a, b, joinArgs(pc.period), cmd[0])
+					if ref.Exit != 0 || res.Exit != 0 || res.Out != ref.Out {
+						c.Violation(strings.Join(cmd, " ")+"|selection-with-colliding-headings", fmt.Sprintf("%s %s: headings %s and %s collide under %s; output differs from the same command on the log restricted to the period", joinArgs(pc.period), joinArgs(cmd), a, b, h.name),
+							caseDoc{Files: files, Args: args, Expected: resDoc(ref), Observed: resDoc(res)})
+					}
+				}
+			}
+		}
+		c.Count("hash_twin_pairs_"+strings.ReplaceAll(h.name, "-", "_"), min(found, 3))
+	}
 }
